@@ -634,7 +634,8 @@ Definition get_rc (r : res cst) : res rc :=
   match r with
   | Ok (Num x) => Ok x
   | Ok _ => Fault
-  | _ => Fault   (* the complex operations ignore the errors of the part operations *)
+  | Err e => Err e   (* the complex operations return the error of a part operation *)
+  | Fault => Fault
   end.
 
 Definition get_bool (r : res cst) : res bool :=
@@ -643,6 +644,12 @@ Definition get_bool (r : res cst) : res bool :=
 Definition part (o : op) (a b : rc) : res rc := get_rc (bin_arith o a b).
 
 Notation "x <- e ;; f" := (bind e (fun x => f)) (at level 61, e at next level, right associativity).
+
+(* sumOfProducts: a*b o c*d, or the error of the first operation that fails *)
+Definition sum_of_products (a b : rc) (o : op) (c d : rc) : res rc :=
+  ab <- part OMul a b ;;
+  cd <- part OMul c d ;;
+  part o ab cd.
 
 Definition bin_cplx (o : op) (a b c d : rc) : res cst :=
   match o with
@@ -655,27 +662,17 @@ Definition bin_cplx (o : op) (a b c d : rc) : res cst :=
     im <- part o b d ;;
     Ok (Cplx re im)
   | OMul =>
-    ac <- part OMul a c ;;
-    bd <- part OMul b d ;;
-    bc <- part OMul b c ;;
-    ad <- part OMul a d ;;
-    re <- part OSub ac bd ;;
-    im <- part OAdd bc ad ;;
+    re <- sum_of_products a c OSub b d ;;
+    im <- sum_of_products b c OAdd a d ;;
     Ok (Cplx re im)
   | ODiv =>
     if rc_zero c && rc_zero d then Err ECDiv0
     else
-      cc <- part OMul c c ;;
-      dd <- part OMul d d ;;
-      s <- part OAdd cc dd ;;
+      s <- sum_of_products c c OAdd d d ;;
       if rc_zero s then Err ECDiv0
       else
-        ac <- part OMul a c ;;
-        bd <- part OMul b d ;;
-        bc <- part OMul b c ;;
-        ad <- part OMul a d ;;
-        re <- part OAdd ac bd ;;
-        im <- part OSub bc ad ;;
+        re <- sum_of_products a c OAdd b d ;;
+        im <- sum_of_products b c OSub a d ;;
         let s' := match s with
                   | I64 z | Big z => Rat z 1
                   | _ => s
